@@ -409,6 +409,9 @@ def run_history(case, sandbox, stats=None):
                 mach.op_stage(op[1], op[2] if len(op) > 2 else None)
             elif kind == 'edit_global':
                 mach.op_edit_global(op[1], op[2])
+            elif kind == 'edit_global_many':
+                for path, value in op[1]:
+                    mach.op_edit_global(path, value)
             elif kind == 'edit_snapshot':
                 mach.op_edit_snapshot(op[1], op[2], op[3], op[4])
             elif kind == 'edit_caller_dict':
@@ -475,7 +478,11 @@ EDIT_PATHS = [(['MSA'], 4321), (['MAX_HITS_OKTA0'], 7), (['LOWESS', 'frac'], 0.6
               (['LAYERING_PRMS', 'gmm_kwargs', 'delta_mul_gain'], 0.85),
               (['LAYERING_PRMS', 'gmm_kwargs', 'scores'], 'AIC'),
               (['LAYERING_PRMS', 'min_okta_to_split'], 5),
-              (['BASE_LVL_HEIGHT_PERC'], 20), (['MIN_SEP_VALS'], [300, 900]),
+              (['BASE_LVL_HEIGHT_PERC'], 50), (['BASE_LVL_LOOKBACK_PERC'], 33),
+              (['MAX_HOLES_OKTA8'], 6), (['MSA_HIT_BUFFER'], 300),
+              (['GROUPING_PRMS', 'dt_scale'], 600), (['SLICING_PRMS', 'distance_threshold'], 0.1),
+              (['LAYERING_PRMS', 'gmm_kwargs', 'rescale_0_to_x'], 0.1),
+              (['MIN_SEP_VALS'], [300, 900]),
               (['EXCLUDE_FOR_BASE_HEIGHT_CALC'], ['C1'])]
 LIST_EDITS = [(['EXCLUDE_FOR_BASE_HEIGHT_CALC'], 'append', 'C7'),
               (['GROUPING_PRMS', 'height_scale_range'], 'setitem0', 77),
@@ -499,9 +506,14 @@ def gen_ops(rng, n_frames, n_dicts, faults):
         elif x < 0.60:
             ops.append(['run', rng.randrange(n_frames), dj] + ([inj] if inj else []))
             n_chunks += 1
-        elif x < 0.72:
+        elif x < 0.66:
             path, val = rng.choice(EDIT_PATHS)
             ops.append(['edit_global', path, val])
+        elif x < 0.72:
+            # every processing leaf of the global gets another valid value: a chunk built earlier
+            # must not notice, whichever stage comes next
+            vals = prmspace.all_leaves_poison(rng, defaults())
+            ops.append(['edit_global_many', [[list(q), v] for q, v in vals.items()]])
         elif x < 0.84:
             if rng.random() < 0.5:
                 path, how, val = rng.choice(LIST_EDITS)
@@ -556,7 +568,8 @@ def execute(run):
                 frames, prm_pool = [], []
                 for _ in range(rng_scene.choice([1, 2, 2])):
                     sc = scenes.gen_scene(rng_scene, rng_scene.choice(
-                        ['split', 'merge', 'demo-like', 'demo-like', 'two-far', 'msa-crop',
+                        ['split', 'merge', 'demo-like', 'demo-like', 'asym-split', 'asym-split',
+                         'borderline', 'two-far', 'msa-crop',
                          'multi-hit', 'rng-sensitive', 'no-hit', 'single-hit', 'vv', 'sparse']))
                     frames.append({'rows': sc['rows'], 'flavour': gen_flavour(rng_scene),
                                    'cls': sc['cls']})
@@ -574,7 +587,7 @@ def execute(run):
                 hkey = kernel.sha([frames[0]['rows'][:3], ops])
                 out['sets']['histories'].add(hkey)
                 kinds = {o[0] for o in ops}
-                if kinds & {'construct', 'run'} and kinds & {'edit_global', 'edit_snapshot',
+                if kinds & {'construct', 'run'} and kinds & {'edit_global', 'edit_global_many', 'edit_snapshot',
                                                               'set_prms', 'reset'}:
                     out['sigs'].append(hkey)
                 if len(out['samples']) < 1:
